@@ -144,6 +144,12 @@ func (h *Harness) doWorkload(w Workload, only int, onlyMode string) bool {
 			jobs = append(jobs, &job{hit: ht, mode: m})
 		}
 	}
+	// the library-mode child gets its own copy, taken BEFORE any child starts to modify the capture
+	for _, j := range jobs {
+		if j.mode == "library" {
+			copyTree(fmt.Sprintf("%s/%04d/", wr.Snaps, j.hit.N), fmt.Sprintf("%s/%04d-lib/", wr.Snaps, j.hit.N))
+		}
+	}
 	var wg sync.WaitGroup
 	sem := make(chan bool, 12)
 	for _, j := range jobs {
@@ -153,9 +159,7 @@ func (h *Harness) doWorkload(w Workload, only int, onlyMode string) bool {
 			defer wg.Done()
 			dir := fmt.Sprintf("%s/%04d/", wr.Snaps, j.hit.N)
 			if j.mode == "library" {
-				d2 := fmt.Sprintf("%s/%04d-lib/", wr.Snaps, j.hit.N)
-				copyTree(dir, d2)
-				dir = d2
+				dir = fmt.Sprintf("%s/%04d-lib/", wr.Snaps, j.hit.N)
 			}
 			j.res = runChild(j.mode, dir, blocksFile)
 			<-sem
@@ -172,8 +176,12 @@ func (h *Harness) doWorkload(w Workload, only int, onlyMode string) bool {
 		r.Eval(kind, fmt.Sprintf("%s|%s|%d|%s", w.Name, j.hit.Name, j.hit.Idx, j.mode))
 		r.Hit("point:" + j.hit.Name)
 		ok := h.judge(w, wr, j.hit, j.mode, j.res)
-		if ok && j.mode == "client" && modelOK {
-			h.compareModel(w, wr, mdl, j.hit, j.res)
+		// the model must predict the recovered state ALSO where the property fails (F8: same wrong coin set)
+		if j.mode == "client" && modelOK && j.res.S1 != nil && j.res.S2 != nil && j.res.S3 != nil {
+			h.compareModel(w, wr, mdl, j.hit, j.res, ok)
+			if !ok {
+				r.Hit("model-predicts-failure-state")
+			}
 		}
 		if j.hit.N%17 == 3 && j.mode == "client" {
 			r.Sample(map[string]interface{}{"workload": w.Name, "point": j.hit.Name, "hit": j.hit.Idx, "open": j.res.Open, "recovery": j.res.Recovery,
@@ -225,6 +233,12 @@ func (h *Harness) judge(w Workload, wr *WlRun, ht Hit, mode string, c *ChildRes)
 		return best != "" && bh > c.S1.Height && !h.ref.isAncestorOrEqual(x, best)
 	}
 	fail := func(key, what string) bool {
+		if mode == "library" && strings.Contains(c.Open, "unknown path to block") {
+			// FindPathTo's own message: the snapshot's block is not an ancestor of the farthest block on disk
+			r.PropFail(keyLib, "library-mode NewChainExt (DoNotRescan=false) calls ParseTillBlock(farthest) and panics in FindPathTo when the snapshot's block is not an ancestor of the farthest block on disk: "+where+": "+what, rep)
+			r.Hit("known:" + keyLib)
+			return false
+		}
 		if offBranch() {
 			if mode == "library" && strings.Contains(c.Open, "unknown path to block") {
 				r.PropFail(keyLib, "library-mode NewChainExt (DoNotRescan=false) panics in FindPathTo when the snapshot's block is not an ancestor of the farthest block on disk: "+where+": "+what, rep)
@@ -423,9 +437,12 @@ func (h *Harness) blockTok(m *Model, raw []byte, next *int) string {
 		}
 		for vout := range tx.TxOut {
 			key := fmt.Sprintf("%s:%d", hex.EncodeToString(tx.Hash.Hash[:]), vout)
-			*next++
-			m.coinID[key] = *next
-			cr = append(cr, fmt.Sprint(*next))
+			// coin identity = outpoint: the same transaction mined on two branches creates the SAME coins
+			if _, seen := m.coinID[key]; !seen {
+				*next++
+				m.coinID[key] = *next
+			}
+			cr = append(cr, fmt.Sprint(m.coinID[key]))
 		}
 	}
 	j := func(xs []string) string {
@@ -553,12 +570,17 @@ func (h *Harness) coinsToIDs(m *Model, s *State) string {
 	return strings.Join(ss, ",")
 }
 
-func (h *Harness) compareModel(w Workload, wr *WlRun, m *Model, ht Hit, c *ChildRes) {
+func (h *Harness) compareModel(w Workload, wr *WlRun, m *Model, ht Hit, c *ChildRes, propOK bool) {
 	r := h.r
 	k := m.baseLabels + ht.N
 	rep := h.o.MustAsk(fmt.Sprintf("crash %d", k))
 	// reply: ok <tip1> <tip2> <coins2> <tip3> <coins3> <ambiguous 0|1>   |  panic <stage> <what>
 	f := strings.Fields(rep)
+	if !propOK && strings.HasPrefix(rep, "panic unsupported") {
+		// inside the known-finding region the corrupted UTXO set makes a VALID block fail; DeleteBranch is not modelled
+		r.Hit("model-unsupported-in-failure-region")
+		return
+	}
 	real := fmt.Sprintf("ok %d %d %s %d %s", m.blockID[c.S1.Tip], m.blockID[c.S2.Tip], h.coinsToIDs(m, c.S2), m.blockID[c.S3.Tip], h.coinsToIDs(m, c.S3))
 	if len(f) == 7 && f[0] == "ok" {
 		mod := strings.Join(f[:6], " ")
